@@ -10,7 +10,7 @@ RULE = ('every clause body tree with <= N operators from , ; -> \\+ over the 8 l
         'c(..,Z):-m(Z),p(..). plus a dynamic fact p(7..), in 6 context variants: with / without a two-solution goal to '
         'the LEFT of the body x 0, 1 or 2 goals to its RIGHT (thorough, 3 operators: 2 of the 6 variants; and a second '
         'script adding p(6..) without overwrite); compiled, loaded into a fresh engine, query c(A1..Ak,Z) run twice '
-        'and compared answer by answer with RefProlog; plus every body with N+1 operators over the cut-focused leaves {! m(Vi) z} (2 context variants; thorough 1); plus every body with <= 2 operators that contains the leaf t2(V1) - a test on the variable of the first goal that fails for its first solution and succeeds for the second; plus tables of N clauses that each end in (or start with) a cut, followed by a catch-all clause, for 20 values of N up to 130; plus cuts behind a head that may not match: every pair of the 13 head-argument shapes (repeated variables, constants, structures, lists) x every body of <= 1 operator over {! o m fail} with a cut, followed by a catch-all clause, queried with every pair of 6 argument shapes. states = distinct answer sequences; '
+        'and compared answer by answer with RefProlog; plus every body with N+1 operators over the cut-focused leaves {! m(Vi) z} (2 context variants; thorough 1); plus every body with <= 2 operators that contains the leaf t2(V1) - a test on the variable of the first goal that fails for its first solution and succeeds for the second; plus every body with <= 2 operators that calls kk/0, a predicate with one clause ending in a cut whose name is also used at arity 1 by a predicate without cut; plus tables of N clauses that each end in (or start with) a cut, followed by a catch-all clause, for 20 values of N up to 130; plus cuts behind a head that may not match: every pair of the 13 head-argument shapes (repeated variables, constants, structures, lists) x every body of <= 1 operator over {! o m fail} with a cut, followed by a catch-all clause, queried with every pair of 6 argument shapes. states = distinct answer sequences; '
         'transitions = next() calls on the real engine; non-trivial = at least one answer')
 ASSUMPTIONS = ['RefProlog (mc/refprolog.py) implements standard cut semantics',
                'cuts in the condition of -> or under \\+ are outside the property and skipped',
@@ -24,7 +24,7 @@ def bounds(tier):
 def plan(tier):
     maxops = 2 if tier == 'quick' else 3
     return ([(k, treecheck.NSHARDS, maxops, tier) for k in range(treecheck.NSHARDS)] + [('heads', k, 32, tier) for k in range(32)]
-            + [('focus', k, 32, tier) for k in range(32)] + [('wide', k, 8, tier) for k in range(8)] + [('tfocus', k, 16, tier) for k in range(16)])
+            + [('focus', k, 32, tier) for k in range(32)] + [('wide', k, 8, tier) for k in range(8)] + [('tfocus', k, 16, tier) for k in range(16)] + [('jfocus', k, 16, tier) for k in range(16)])
 
 
 # ---- deeper bodies over a cut-focused alphabet ----------------------------------------------
@@ -62,6 +62,33 @@ def run_tfocus(spec):
                 if res['status'] == 'violation':
                     res['sig'] = 'test-on-condition-variable:' + res['sig']
                 account(acc, ('T', idx, vi), case, res, key='%s %r' % (bodies.show_tree(t), sorted(var.items())))
+    return acc
+
+
+def run_jfocus(spec):
+    """bodies that call kk/0 (single clause ending in a cut; kk/1 exists without cut): the callee's cut
+    is the callee's - <= 2 operators over the 8 leaves + j, at least one j"""
+    from ..diff import account
+    from ..runner import Acc
+    _, k, n, tier = spec
+    acc = Acc()
+    idx = 0
+    for nops in range(0, 3):
+        for t in bodies.trees(nops, bodies.LEAVES + ['j']):
+            idx += 1
+            if idx % n != k:
+                continue
+            if not has_leaf(t, 'j'):
+                continue
+            tr, op = bodies.cut_positions(t)
+            if op:
+                continue
+            for vi, var in enumerate([dict(), dict(prefix=True, suffix=1)]):
+                case = treecheck.tree_case(t, **var)
+                res = case.run()
+                if res['status'] == 'violation':
+                    res['sig'] = 'callee-with-same-name-at-other-arity:' + res['sig']
+                account(acc, ('J', idx, vi), case, res, key='%s %r' % (bodies.show_tree(t), sorted(var.items())))
     return acc
 
 
@@ -205,6 +232,8 @@ def run_shard(spec):
         return run_wide(spec)
     if spec[0] == 'tfocus':
         return run_tfocus(spec)
+    if spec[0] == 'jfocus':
+        return run_jfocus(spec)
     k, n, maxops, tier = spec
     # context variants: a goal with alternatives to the left of the body (the cut must discard
     # them) and 0, 1 or 2 goals to its right (they must still backtrack)
